@@ -6,19 +6,10 @@ from ..atomics import sites
 from ..facts import keyname, AnchorLost
 from ..flow import flow, deps, deep_strip, strip, show, mentions, fold
 from .util import call_sites, exactly_once
-from .C01 import Roles, on_field, RG, WG
+from .hl import Roles, on_field, RG, WG
+from . import reg, hl
 
-DATA_T = "signal_hook_registry::SignalData"
-
-
-def data_reads(F, h):
-    return [(bb, t) for bb, t in h.calls() if t.get("f") is not None and
-            F.inst[t["f"]].name == "signal_hook_registry::half_lock::HalfLock::<%s>::read" % DATA_T]
-
-
-def action_calls(F, h):
-    d = action_dyn(F)
-    return [(bb, t) for bb, t in h.calls() if t.get("f") is not None and F.inst[t["f"]].kind == "virtual" and F.inst[t["f"]].dyn == d]
+from .reg import DATA_T, FB_T
 
 
 def slot_lookup(F, h):
@@ -38,19 +29,18 @@ def rule_a(ctx):
     rid = "C02.a"
     ctx.rule(rid, "the dispatcher takes exactly one read guard on the snapshot lock on every path, outside any loop; the slot lookup and the "
                   "iteration derive from that guard", floor=2)
-    h = handler(F)
+    h, nh = reg.handler_n(F)
     ctx.fn(h)
-    rd = data_reads(F, h)
-    okk, why = exactly_once(h, [bb for bb, _ in rd])
+    rd = reg.calls_to(nh, reg.locks(F).readers(DATA_T))
+    okk, why = exactly_once(nh, [bb for bb, _ in rd])
     ctx.check(okk, rid, "one-guard", "exactly one read guard on the snapshot per delivery", h.span, why)
-    lk = slot_lookup(F, h)
+    lk = slot_lookup(F, nh)
     if len(lk) != 1:
         raise AnchorLost("dispatcher: expected exactly one HashMap<i32, Slot>::get, found %d" % len(lk))
     lbb, lt = lk[0]
-    d = deps(h, flow(h).term_arg(lbb, 0))
+    d = deps(nh, flow(nh).term_arg(lbb, 0))
     ctx.check(rd and ("call", rd[0][0]) in d, rid, "lookup-from-guard", "the slot lookup reads the map of the snapshot behind that guard", lt["sp"],
               sorted(str(x) for x in d)[:10])
-    return h, rd, lbb
 
 
 def rule_b(ctx):
@@ -58,25 +48,20 @@ def rule_b(ctx):
     rid = "C02.b"
     ctx.rule(rid, "the lookup key is the dispatcher's own signal parameter; the action call sits in exactly one loop, once per iteration; the loop is "
                   "a forward iteration of the `actions` ordered map of the looked-up slot", floor=5)
-    h = handler(F)
-    lk = slot_lookup(F, h)
+    h, A = reg.handler_n(F)
+    lk = slot_lookup(F, A)
+    if len(lk) != 1:
+        raise AnchorLost("dispatcher: expected exactly one HashMap<i32, Slot>::get, found %d" % len(lk))
     lbb, lt = lk[0]
-    kd = deps(h, flow(h).term_arg(lbb, 1))
+    kd = deps(A, flow(A).term_arg(lbb, 1))
     ctx.check(("param", 1) in kd and not any(x[0] == "call" for x in kd) and not any(x[0] == "const" for x in kd), rid, "key-is-sig",
               "the lookup key is the handler's `sig` argument", lt["sp"], sorted(str(x) for x in kd))
-    h0, found = action_site(F)
-    ctx.check(len(found) == 1, rid, "one-action-call-site", "one call site of the action type in the dispatcher (helpers included)", h.span,
-              [t["sp"] for _, _, t, _ in found])
+    found = reg.action_calls(F, A)
+    ctx.check(len(found) == 1, rid, "one-action-call-site", "one call site of the action type in the dispatcher (helpers and closures inlined)", h.span,
+              [t["sp"] for _, t in found])
     if len(found) != 1:
         return
-    A, abb, at, chain = found[0]
-    ctx.fn(A)
-    # a helper between the dispatcher and the loop is called exactly once, outside loops, and receives the looked-up slot
-    src_local = None
-    for (fm, cb) in chain:
-        okk, why = exactly_once(fm, [cb]) if fm.id != h.id else (not cfg.in_cycle(fm, cb), "call in a loop")
-        ctx.check(okk if fm.id != h.id else not cfg.in_cycle(fm, cb), rid, "helper-called-once@%s" % keyname(fm.name), "the helper running the actions is called once per delivery, outside loops",
-                  fm.term(cb)["sp"], why)
+    abb, at = found[0]
     comps = [c for c in cfg.cycles(A) if abb in c]
     ctx.check(len(comps) == 1, rid, "action-in-loop", "the action call is inside exactly one loop", at["sp"], "not inside a loop" if not comps else "nested")
     if len(comps) != 1:
@@ -92,6 +77,7 @@ def rule_b(ctx):
                 nexts.append((b, t, c))
     fwd = [x for x in nexts if x[1].get("def") == "core::iter::traits::iterator::Iterator::next"]
     selfty = (fwd[0][1].get("targs") or [""])[0] if fwd else ""
+    selfty = re.sub(r"^&mut ", "", selfty)
     okk = len(nexts) == 1 and len(fwd) == 1 and re.match(r"^alloc::collections::btree::map::(Values|Iter|Keys)<", selfty) is not None
     ctx.check(okk, rid, "forward-btree-iteration", "the loop is driven by Iterator::next on a B-tree map iterator (no Rev / next_back): %s" % selfty[:80],
               fwd[0][1]["sp"] if fwd else at["sp"], {"iterator_calls": [c.name[:160] for _, _, c in nexts]})
@@ -108,27 +94,9 @@ def rule_b(ctx):
             continue
         seen.add(x); st.extend(s for s in A.succ(x) if s in rest)
     ctx.check(not again, rid, "once-per-iteration", "the action is called once per iteration step", at["sp"], "the action call can repeat without advancing the iterator")
-    # iterator derives from `actions` of the looked-up slot, no reversing adapter anywhere on the way
     itd = deps(A, flow(A).term_arg(fwd[0][0], 0))
     via_actions = any(x[0] == "field" and x[2] and "signal_hook_registry::Slot" in x[2] for x in itd)
-    if A.id == h.id:
-        from_lookup = ("call", lbb) in itd
-    else:
-        # the slot reaches the helper as a parameter; follow the chain of calls back to the dispatcher's lookup
-        params = {x[1] for x in itd if x[0] == "param"}
-        from_lookup = False
-        cur = params
-        for (fm, cb) in reversed(chain):
-            nxtp = set(); hit = False
-            for pnum in cur:
-                if pnum - 1 < len(fm.term(cb)["args"]):
-                    dd = deps(fm, flow(fm).term_arg(cb, pnum - 1))
-                    if fm.id == h.id and ("call", lbb) in dd:
-                        hit = True
-                    nxtp |= {x[1] for x in dd if x[0] == "param"}
-            if hit:
-                from_lookup = True
-            cur = nxtp
+    from_lookup = ("call", lbb) in itd
     adapters = []
     for x in itd:
         if x[0] == "call":
@@ -142,20 +110,52 @@ def rule_b(ctx):
     ctx.check(("call", fwd[0][0]) in cd, rid, "calls-the-item", "the action invoked is the item yielded by that iterator", at["sp"], sorted(str(x) for x in cd)[:8])
 
 
+def next_id_writes_in(m):
+    """assignments to the `next_id` field of the snapshot type in one body: [(bb, stmt index, stmt)]"""
+    out = []
+    for bb, bl in enumerate(m.blocks):
+        for si, s in enumerate(bl["s"]):
+            if s["k"] != "assign" or not s["l"]["p"]:
+                continue
+            last = s["l"]["p"][-1]
+            if last["k"] == "field" and last["n"] == "next_id" and DATA_T in (last.get("bt") or ""):
+                out.append((bb, si, s))
+    return out
+
+
 def next_id_writes(F):
-    """assignments to the `next_id` field of the snapshot type anywhere in the registry crate"""
+    """(raw functions) assignments to `next_id` anywhere in the registry crate: [(inst, bb, si, stmt)]"""
     out = []
     for i in F.inst:
         if i.body is None or not i.local or i.crate != "signal_hook_registry":
             continue
-        for bb, bl in enumerate(i.blocks):
-            for si, s in enumerate(bl["s"]):
-                if s["k"] != "assign" or not s["l"]["p"]:
-                    continue
-                last = s["l"]["p"][-1]
-                if last["k"] == "field" and last["n"] == "next_id" and DATA_T in (last.get("bt") or ""):
-                    out.append((i, bb, si, s))
+        for (bb, si, s) in next_id_writes_in(i):
+            out.append((i, bb, si, s))
     return out
+
+
+def registering(F):
+    """public functions that can install the dispatcher: their normal form takes the dispatcher's address (for sigaction).
+    [(fn item, instance, normal form)]"""
+    h = handler(F)
+    out = []
+    for fn, i in reg.public_fns(F):
+        n = reg.RN(F, i)
+        if any(s["k"] == "assign" and s["r"]["k"] == "cast" and s["r"].get("fn") == h.id for bl in n.blocks for s in bl["s"]):
+            out.append((fn, i, n))
+    if not out:
+        raise AnchorLost("registering functions (public functions whose normal form takes the dispatcher's address)")
+    return out
+
+
+def _is_clone_of_snapshot(m, e):
+    e = deep_strip(e)
+    while e[0] in ("ref", "cast"):
+        e = deep_strip(e[1])
+    if e[0] != "call":
+        return False
+    t = m.term(e[1])
+    return (t.get("def") or "").endswith("Clone::clone") and DATA_T in "".join(t.get("targs") or [])
 
 
 def rule_c(ctx):
@@ -171,37 +171,45 @@ def rule_c(ctx):
     aid = F.adt("signal_hook_registry::ActionId")
     ctx.check(bool(ordimpl) and [f["ty"] for f in aid["variants"][0]["fields"]] == ["u128"], rid, "key-order", "ActionId is a newtype over u128 with derived Ord "
               "(numeric order)", aid["span"], {"ord_impls": len(ordimpl)})
-    ws = next_id_writes(F)
-    if not ws:
+    if not next_id_writes(F):
         raise AnchorLost("no write to next_id found")
-    for (i, bb, si, s) in ws:
-        ex = flow(i).rvalue(s["r"], (bb, si))
-        okk = True
-        for e in ex:
-            e = deep_strip(e)
-            if not (e[0] == "binop" and e[1] in ("Add", "AddWithOverflow", "AddUnchecked") and fold(e[3]) == 1 and
-                    deep_strip(e[2])[0] == "field" and deep_strip(e[2])[2] == "next_id"):
-                okk = False
-        # written on a local clone, not through the published pointer
-        base_local = s["l"]["l"]
-        on_clone = i.local_ty(base_local) == DATA_T and not any(p["k"] == "deref" for p in s["l"]["p"])
-        ctx.check(okk and on_clone, rid, "next_id:+1@%s" % keyname(i.name), "next_id is only ever set to old+1, on the local clone of the snapshot", s["sp"],
-                  {"value": [show(e) for e in ex], "on_local_clone": on_clone})
-    for r in _register_impls(F):
+    nw = 0
+    for fn, i in reg.public_fns(F):
+        n = reg.RN(F, i)
+        fl = flow(n)
+        for (bb, si, s) in next_id_writes_in(n):
+            nw += 1
+            ex = fl.rvalue(s["r"], (bb, si))
+            okk = bool(ex)
+            for e in ex:
+                e = deep_strip(e)
+                if not (e[0] == "binop" and e[1] in ("Add", "AddWithOverflow", "AddUnchecked") and fold(e[3]) == 1 and
+                        deep_strip(e[2])[0] == "field" and deep_strip(e[2])[2] == "next_id"):
+                    okk = False
+            # written on a local clone, not through the published pointer
+            pl = s["l"]
+            if any(p["k"] == "deref" for p in pl["p"]):
+                base = fl.local(pl["l"], (bb, si))
+                on_clone = bool(base) and all(_is_clone_of_snapshot(n, e) for e in base)
+            else:
+                on_clone = n.local_ty(pl["l"]) == DATA_T
+            ctx.check(okk and on_clone, rid, "next_id:+1@%s" % keyname(i.name), "next_id is only ever set to old+1, on the local clone of the snapshot", s["sp"],
+                      {"value": [show(e) for e in ex], "on_local_clone": on_clone})
+    if not nw:
+        raise AnchorLost("no public function writes next_id")
+    for fn, r, n in registering(F):
         ctx.fn(r)
-        ins = [(bb, t) for bb, t in r.calls() if t.get("f") is not None and re.match(r"^alloc::collections::btree::map::BTreeMap::<signal_hook_registry::ActionId, .*>::insert$", F.inst[t["f"]].name)]
+        ins = [(bb, t) for bb, t in n.calls() if t.get("f") is not None and re.match(r"^alloc::collections::btree::map::BTreeMap::<signal_hook_registry::ActionId, .*>::insert$", F.inst[t["f"]].name)]
         if not ins:
             raise AnchorLost("registration no longer inserts into the ordered action map")
-        writes = [(bb, si) for (i, bb, si, s) in ws if i.id == r.id]
         for bb, t in ins:
-            kd = flow(r).term_arg(bb, 1)
-            okk = all(mentions(e, lambda x: x[0] == "field" and x[2] == "next_id") for e in kd)
+            kd = flow(n).term_arg(bb, 1)
+            okk = bool(kd) and all(mentions(e, lambda x: x[0] == "field" and x[2] == "next_id") for e in kd)
             ctx.check(okk, rid, "insert-under-id@%s" % keyname(r.name), "the action is inserted under the id read from next_id", t["sp"], [show(e) for e in kd])
 
 
 def _register_impls(F):
-    """the registering function, located by role: the workspace function(s) that call the function which installs the dispatcher
-    (the one taking the dispatcher's address for sigaction)"""
+    """(raw functions, kept for rules that still need them) the registering function located by role"""
     h = handler(F)
     ins = [i for i in F.inst if i.body is not None and any(k == "reify" and t == h.id for (t, k, b) in F.edges(i))]
     out = {}
@@ -223,17 +231,13 @@ def rule_d(ctx):
     ctx.rule(rid, "copy-on-write publish: the new snapshot is handed to the publishing call by value; the pointer is changed only by the swap; "
                   "no DerefMut on a guard type", floor=4)
     R = Roles(F)
-    from .pub import publish_sites, is_forwarder
-    for ci in F.inst:
-        if ci.body is None or not ci.local or ci.crate != "signal_hook_registry":
-            continue
-        for T in (DATA_T, "core::option::Option<signal_hook_registry::Prev>"):
-            if is_forwarder(F, ci, T):
-                continue
-            for bb, t, gi, vi in publish_sites(F, ci, T):
-                a = t["args"][vi]
+    L = reg.locks(F)
+    for T in (DATA_T, FB_T):
+        for fn, i, n, sites_ in reg.mutators(F, T):
+            for bb, t in sites_:
+                a = t["args"][1]
                 byval = a["k"] in ("move",) and not a["p"]["p"]
-                ctx.check(byval, rid, "publish-by-value@%s" % keyname(ci.name), "the snapshot is moved into the publishing call (cannot be touched afterwards)",
+                ctx.check(byval, rid, "publish-by-value@%s" % keyname(i.name), "the snapshot is moved into the publishing call (cannot be touched afterwards)",
                           t["sp"], a)
     writes = []
     for i in F.inst:
@@ -255,20 +259,16 @@ def rule_e(ctx):
     F = ctx.F
     rid = "C02.e"
     ctx.rule(rid, "copy-modify-publish happens inside one critical section of the writer lock: the value given to `store` derives from a clone whose "
-                  "source was read through the same write guard", floor=3)
-    n = 0
-    for m in F.inst:
-        if m.body is None or not m.local or m.crate != "signal_hook_registry":
-            continue
-        from .pub import publish_sites, is_forwarder
-        if is_forwarder(F, m, DATA_T):
-            continue        # a pure forwarding helper: its callers are the publish sites
-        for bb, t, gi, vi in publish_sites(F, m, DATA_T):
-            n += 1
-            ctx.fn(m)
-            g = deps(m, flow(m).term_arg(bb, gi))
-            writes = {x[1] for x in g if x[0] == "call" and (m.term(x[1]).get("def") or "").endswith("HalfLock::<T>::write")}
-            v = deps(m, flow(m).term_arg(bb, vi))
+                  "source was read through the same write guard", floor=2)
+    L = reg.locks(F)
+    wr = L.writers(DATA_T)
+    muts = reg.mutators(F, DATA_T)
+    for fn, i, m, sites_ in muts:
+        ctx.fn(i)
+        for bb, t in sites_:
+            g = deps(m, flow(m).term_arg(bb, 0))
+            writes = {x[1] for x in g if x[0] == "call" and m.term(x[1]).get("f") in wr}
+            v = deps(m, flow(m).term_arg(bb, 1))
             clones = [x[1] for x in v if x[0] == "call" and (m.term(x[1]).get("def") or "").endswith("Clone::clone") and DATA_T in "".join(m.term(x[1]).get("targs") or [])]
             okk = False; src = []
             for c in clones:
@@ -276,11 +276,12 @@ def rule_e(ctx):
                 src.append(sorted((m.term(x[1]).get("def") or "?").split("::")[-1] for x in cd if x[0] == "call"))
                 if writes and any(("call", w) in cd for w in writes):
                     okk = True
-            ctx.check(okk and len(writes) == 1, rid, "rmw-under-one-guard@%s" % keyname(m.name), "%s publishes a clone of the snapshot read through the same write guard"
-                      % m.name.split("::")[-1].split("<")[0], t["sp"], {"write_guards": len(writes), "clone_sources": src,
-                                                                       "consequence": "a registration/removal completed by another thread in between is silently undone"})
-    if n < 3:
-        raise AnchorLost("publishing mutators found: %d" % n)
+            ctx.check(okk and len(writes) == 1, rid, "rmw-under-one-guard@%s" % keyname(i.name), "%s publishes a clone of the snapshot read through the same write guard"
+                      % fn["path"].split("::")[-1], t["sp"], {"write_guards": len(writes), "clone_sources": src,
+                                                              "consequence": "a registration/removal completed by another thread in between is silently undone"})
+    kinds = {("reg" if any(i.id == r.id for _, r, _ in registering(F)) else "unreg") for fn, i, m, s_ in muts}
+    if kinds != {"reg", "unreg"}:
+        raise AnchorLost("publishing mutators found: %s (expected registering and removing ones)" % sorted(kinds))
 
 
 def rule_f(ctx):
@@ -289,44 +290,16 @@ def rule_f(ctx):
     F = ctx.F
     rid = "C02.f"
     ctx.rule(rid, "every public mutator of the registry publishes the data snapshot at most once per call (no publish inside a loop, no second "
-                  "publish reachable after the first), directly or through callees", floor=3)
-    stores = {i.id for i in F.inst if i.name == "signal_hook_registry::half_lock::WriteGuard::<'_, %s>::store" % DATA_T}
-    if not stores:
-        raise AnchorLost("publishing store")
-    pubs_memo = {}
-
-    def publishes(fid):
-        if fid not in pubs_memo:
-            pubs_memo[fid] = fid in stores or bool(set(F.reach([F.inst[fid]], stop=lambda x: x.id in stores and x.id != fid)) & stores)
-        return pubs_memo[fid]
-    n = 0
-    for c, fn in F.crate_items("fns"):
-        if c != "signal_hook_registry" or not fn["pub"] or fn["kind"] != "Fn":
-            continue
-        for m in [i for i in F.inst if i.defp == fn["path"] and i.body is not None]:
-            # walk down through workspace frames until the frames that contain publish sites
-            frames = [m] + [F.inst[x] for x in F.reach([m], stop=lambda x: x.id in stores) if F.inst[x].local and F.inst[x].body is not None and x != m.id and F.inst[x].crate == "signal_hook_registry"]
-            bad = []
-            any_pub = False
-            for f in frames:
-                sites_ = [bb for bb, t in f.calls() if t.get("f") is not None and publishes(t["f"])]
-                if not sites_:
-                    continue
-                any_pub = True
-                from .util import at_most_once
-                ok1, why = at_most_once(f, sites_)
-                if not ok1:
-                    bad.append({"in": f.name, "why": why, "sites": [f.term(b)["sp"] for b in sites_]})
-                for b in sites_:
-                    cal = F.inst[f.term(b)["f"]]
-                    if not cal.local and re.search(r"core::iter::|::slice::iter::|alloc::vec::into_iter::", cal.defp):
-                        bad.append({"in": f.name, "why": "publish reachable through the iterator adapter `%s` (runs once per element)" % cal.defp.split("::")[-1],
-                                    "sites": [f.term(b)["sp"]]})
-            if any_pub:
-                n += 1
-                ctx.check(not bad, rid, "one-publish@%s" % keyname(m.name), "%s publishes at most one snapshot per call" % fn["path"].split("::")[-1], m.span, bad)
-    if n < 3:
-        raise AnchorLost("public publishing mutators: %d" % n)
+                  "publish reachable after the first), helpers and closures inlined", floor=2)
+    from .util import at_most_once
+    muts = reg.mutators(F, DATA_T)
+    for fn, i, n, sites_ in muts:
+        ok1, why = at_most_once(n, [bb for bb, _ in sites_])
+        # a publish still hidden behind a call that was not inlined (recursion, depth): treat as unknown
+        ctx.check(ok1, rid, "one-publish@%s" % keyname(i.name), "%s publishes at most one snapshot per call" % fn["path"].split("::")[-1], i.span,
+                  {"why": why, "sites": [t["sp"] for _, t in sites_]})
+    if len({fn["path"] for fn, _, _, _ in muts}) < 2:
+        raise AnchorLost("public publishing mutators: %d" % len(muts))
 
 
 def run(ctx):
@@ -338,3 +311,7 @@ def run(ctx):
     ctx.guarded("C02.d", rule_d)
     ctx.note("not decided: the linearizability statement itself (which registrations a concurrent delivery must / must not see)")
     ctx.assume("BTreeMap iteration yields keys in ascending order (std contract); safe Rust forbids touching a value after it was moved")
+
+
+def action_calls(F, h):
+    return reg.action_calls(F, h)
